@@ -81,6 +81,14 @@ func vDetRun(scenario int, order uint32) *vDigest {
 		W.w.Shrink()
 	case 2: // target death, recycling of the freed table
 		W.cacheScenario(7)
+	case 4: // three tables of different sizes of one two-relation archetype share the dying target
+		W.create([]int{cR1, cR2}, W.e[1].h, firstParent)
+		W.create([]int{cR1, cR2}, W.e[1].h, firstParent)
+		W.removeEntity(1)
+		W.digest(d)
+		if W.n < vNE {
+			W.create([]int{cR1, cR2}, firstParent, Entity{})
+		}
 	case 3:
 		W.removeEntity(0)
 		W.w.Shrink()
@@ -112,7 +120,8 @@ func vDeterminism(scenario int) {
 	vreach("end")
 }
 
-func VerifC12_TargetDeath()   { vDeterminism(0) }
-func VerifC12_ResetRecycle()  { vDeterminism(1) }
-func VerifC12_Recycle()       { vDeterminism(2) }
-func VerifC12_ShrinkRecycle() { vDeterminism(3) }
+func VerifC12_TargetDeath()       { vDeterminism(0) }
+func VerifC12_ResetRecycle()      { vDeterminism(1) }
+func VerifC12_Recycle()           { vDeterminism(2) }
+func VerifC12_ShrinkRecycle()     { vDeterminism(3) }
+func VerifC12_SharedTargetDeath() { vDeterminism(4) }
